@@ -1,7 +1,7 @@
 (** C08 — independent implementations of the same model agree.  Property theorems only. *)
 From Coq Require Import Reals List ZArith.
 From Interval Require Import Real.Xreal Interval.Interval Eval.Prog Eval.Tree Eval.Eval.
-From FeosVerif Require Import ProgSem AssocC08 Canon PRTextbookC08.
+From FeosVerif Require Import ProgSem AssocC08 Canon CanonDeriv AD PRTextbookC08.
 From Coquelicot Require Import Coquelicot.
 Local Open Scope R_scope.
 
@@ -82,3 +82,22 @@ Theorem C08_peng_robinson_total_pressure : forall T ak b n v d, 0 < T -> 0 < b -
   is_derive (pr_A T ak b n) v d -> - T * d + n * T / v = pr_p_textbook T ak b n v.
 Proof. exact pr_total_pressure_textbook. Qed.
 Print Assumptions C08_peng_robinson_total_pressure.
+
+(** ... and so are their directional derivatives: along every straight line [a + t e] of the shared environment that keeps the
+    zero-flagged inputs at zero, the derivative programs of AD.v ([tan_outs], the objects of C01_directional_derivative) of the two
+    members return the same number whenever both return a number — entropy, pressure and chemical potentials of a relabelled or
+    padded model are those of the original one, for every state (a derivative program that returns a number certifies that the
+    program is defined on a neighbourhood, where the two functions coincide by the previous theorem). *)
+Theorem C08_canonical_derivatives_agree : forall A B zs piA piB oa ob,
+  canon_eqb A B zs piA piB oa ob = true ->
+  forall a e : list R, length a = length zs -> length e = length zs ->
+  (forall j, (j < length zs)%nat -> nth j zs false = true -> nth j a 0 = 0) ->
+  (forall j, (j < length zs)%nat -> nth j zs false = true -> nth j e 0 = 0) ->
+  wscoped A (length piA) = true -> wscoped B (length piB) = true ->
+  (oa < length A + length piA)%nat -> (ob < length B + length piB)%nat ->
+  forall r da db : R,
+  nth 0 (eval_ext (tan_outs A (length piA) (oa :: nil)) (map Xreal (line_pt (sel 0 piA a) (sel 0 piA e) r ++ sel 0 piA e))) Xnan = Xreal da ->
+  nth 0 (eval_ext (tan_outs B (length piB) (ob :: nil)) (map Xreal (line_pt (sel 0 piB a) (sel 0 piB e) r ++ sel 0 piB e))) Xnan = Xreal db ->
+  da = db.
+Proof. exact canon_tangent_agree. Qed.
+Print Assumptions C08_canonical_derivatives_agree.
